@@ -392,9 +392,25 @@ func TestVerifC18(t *testing.T) {
 		}
 		var shards []*configpb.LogShardConfig
 		desc := ""
+		// front ends: normally one per shard; sometimes several shards are served by one front end (the same URI listed twice —
+		// unusual but legal), which must not disturb which shard's front end a certificate is sent to
+		front := make([]int, k)
+		shared := r.Intn(4) == 0
 		for i := 0; i < k; i++ {
-			shards = append(shards, &configpb.LogShardConfig{Uri: fmt.Sprintf("http://s%d", i), NotAfterStart: ts(los[i]), NotAfterLimit: ts(ups[i])})
+			front[i] = i
+			if shared {
+				front[i] = i / 2
+				if r.Intn(3) == 0 {
+					front[i] = r.Intn(2)
+				}
+			}
+			shards = append(shards, &configpb.LogShardConfig{Uri: fmt.Sprintf("http://s%d", front[i]), NotAfterStart: ts(los[i]), NotAfterLimit: ts(ups[i])})
 			desc += " " + optStr(los[i]) + " " + optStr(ups[i])
+		}
+		keyExtra := ""
+		if shared {
+			keyExtra = fmt.Sprintf(" fronts=%v", front)
+			out.Count("class:shared-front-end")
 		}
 		// the instant: a boundary of some shard ± 1ns, or random
 		var when time.Time
@@ -410,7 +426,7 @@ func TestVerifC18(t *testing.T) {
 		if r.Intn(2) == 0 {
 			when = when.Truncate(time.Second)
 		}
-		key := fmt.Sprintf("shards%s t=%s", desc, ns(when))
+		key := fmt.Sprintf("shards%s%s t=%s", desc, keyExtra, ns(when))
 		ans := ""
 		tlc, err := client.NewTemporalLogClient(&configpb.TemporalLogConfig{Shard: shards}, nil)
 		if err != nil {
@@ -450,11 +466,15 @@ func TestVerifC18(t *testing.T) {
 			rec := &hostRecorder{}
 			tlc2, err2 := client.NewTemporalLogClient(&configpb.TemporalLogConfig{Shard: shards}, &http.Client{Transport: rec})
 			if err2 == nil {
-				_, _ = tlc2.AddChain(context.Background(), []ct.ASN1Cert{{Data: p.leaf(when)}, {Data: p.caDER}})
+				if pn := verifkit.Guard(func() {
+					_, _ = tlc2.AddChain(context.Background(), []ct.ASN1Cert{{Data: p.leaf(when)}, {Data: p.caDER}})
+				}); pn != "" {
+					out.Fail(key, "TemporalLogClient.AddChain panic: "+pn)
+				}
 				want := ""
 				for i := 0; i < k; i++ {
 					if inWin(los[i], ups[i], when) {
-						want = fmt.Sprintf("s%d", i)
+						want = fmt.Sprintf("s%d", front[i])
 					}
 				}
 				got := strings.Join(rec.hosts, ",")
